@@ -25,10 +25,18 @@ def main():
     skip_tests = '--skip-tests' in sys.argv
     patch = os.path.join(sdir, 'patch.diff')
     out = {'seed': os.path.basename(sdir), 'property': prop}
-    sh('git -C /repo worktree remove --force %s' % wt)
-    rc, o = sh('git -C /repo worktree add -q --detach %s HEAD' % wt)
-    assert rc == 0, o
+    check_only = '--check-only' in sys.argv
+    if check_only:
+        meta_path = os.path.join(sdir, 'meta.json')
+        if os.path.exists(meta_path):
+            out.update(json.load(open(meta_path)).get('confirmed', {}))
+    else:
+        sh('git -C /repo worktree remove --force %s' % wt)
+        rc, o = sh('git -C /repo worktree add -q --detach %s HEAD' % wt)
+        assert rc == 0, o
     try:
+        if check_only:
+            raise StopIteration
         sh('cp %s/demo.py %s/demo.py' % (sdir, wt))
         rc, o = sh('/venv/bin/python demo.py', cwd=wt, timeout=120)
         out['demo_without_patch'] = {'exit': rc, 'tail': o[-300:]}
@@ -43,8 +51,11 @@ def main():
             out['tests_with_patch'] = o.strip().split('\n')[-1]
         rc, o = sh('/venv/bin/python demo.py', cwd=wt, timeout=120)
         out['demo_with_patch'] = {'exit': rc, 'tail': o[-300:]}
+    except StopIteration:
+        pass
     finally:
-        sh('git -C /repo worktree remove --force %s' % wt)
+        if not check_only:
+            sh('git -C /repo worktree remove --force %s' % wt)
     # now the check
     rc, o = sh('git -C /repo status --short')
     assert o.strip() == '', '/repo not clean: %s' % o
@@ -55,6 +66,7 @@ def main():
         out['check'] = {'exit': rc, 'lines': [l[:300] for l in o.strip().split('\n') if l.startswith('VIOLATION') or ' OK:' in l or ' FAIL:' in l]}
     finally:
         sh('git -C /repo checkout -- .')
+        sh('/venv/bin/python extract.py', cwd='/verif/harness')     # generated Lean files back to the clean tree's
     out['caught'] = out['check']['exit'] == 1
     print(json.dumps(out, indent=1))
     if '--write-meta' in sys.argv:
